@@ -90,6 +90,18 @@ func fnExprJS(e *sx) string {
 		return "(" + fnExprJS(a[0]) + "." + a[1].name + " += " + fnExprJS(a[2]) + ")"
 	case "inc":
 		return "(" + fnExprJS(a[0]) + "." + a[1].name + "++)"
+	case "acf":
+		f := a[1].args
+		kw, ps := "get", ""
+		if a[0].name == "s" {
+			kw = "set"
+			var names []string
+			for _, x := range f[1].args {
+				names = append(names, x.name)
+			}
+			ps = strings.Join(names, ", ")
+		}
+		return "Object.getOwnPropertyDescriptor({" + kw + " p(" + ps + ") { " + fnBodyJS(f[2], f[3], f[4]) + " }}, \"p\")." + kw
 	case "fnc":
 		f := a[0].args
 		return "Function(" + strconv.Quote(fnBodyJS(f[2], f[3], f[4])) + ")"
